@@ -82,6 +82,12 @@ def thunks_table():
         return tuple(sp.sportshall_score(k, v) for k, v in sorted(marks.items()))
     return {
         'score-all': score_all, 'hung-all': hung_all, 'sh-all': sh_all,
+        # calls that RAISE in a single-threaded program too (no factor row / unknown event / missing file): the other
+        # caller must still get its own answer
+        'score-raises': lambda: athlib.athlon_score('M', '3000', 560.0, age=50),
+        'factor-raises': lambda: athlib.wma_age_factor('m', 50, 'NOPE'),
+        'grade-raises': lambda: athlib.wma_age_grade('f', 40, 'LJ', 'fast'),
+        'va-missing': lambda: u.valid_against_schema('sample-jsons/no-such-file.json', 'json/athlete.json'),
         'sh-SHJ': lambda: sp.sportshall_score('SHJ', '0.50'),
         'score-M100': lambda: athlib.athlon_score('M', '100', 10.5),
         'score-FHJ': lambda: athlib.athlon_score('F', 'HJ', 1.8),
@@ -141,6 +147,11 @@ SCENARIOS = [
     ('va-va-limit', ['va-athlete', 'va-perf'], 20),
     ('va-bad-limit', ['va-athlete-bad', 'va-perf'], 19),
     ('sv-va-limit', ['sv-athlete-4', 'va-athlete'], 20),
+    ('raise-then-factor', ['score-raises', 'factor-M50-100'], 0),
+    ('raise-then-grade', ['factor-raises', 'grade-F40-LJ'], 0),
+    ('raise-in-grade', ['grade-raises', 'best-F-MAR'], 0),
+    ('raise-then-afactor', ['score-raises', 'afactor-F69-LJ'], 0),
+    ('va-missing-limit', ['va-missing', 'va-perf'], 19),
     # three threads
     ('score-3', ['score-M100', 'score-FHJ', 'needed-F800'], 0),
     ('factor-3', ['factor-M50-100', 'factor-F72-MAR', 'grade-F40-LJ'], 0),
@@ -155,6 +166,7 @@ class Scenario(object):
         self.thunks = [T[n] for n in names]
 
     def setup(self):
+        dsched.reset_locks()
         reset_cold()
         if self.warm:
             for t in self.thunks:
@@ -193,16 +205,30 @@ def norm(r):
     return ('exc', r[1])
 
 
+HUNG = []          # a thread of an earlier run of this process never returned: later runs would only repeat it
+
+
+class Poisoned(Exception):
+    pass
+
+
 def examine(case):
     sc = Scenario(case['scenario'], case['thunks'], case.get('fill', 0), case.get('warm', False))
     with _stdout_guard():
         want = [norm(r) for r, n in sc.solo()]
         res, run = sc.run([tuple(s) for s in case['schedule']], case.get('first', 0))
     got = [norm(r) for r in res]
+    if run.hung:
+        HUNG.append(case['scenario'])
     out = []
+    for i, w in enumerate(want):
+        if w in (('did-not-finish',), ('exc', 'Deadlock')):
+            HUNG.append(case['scenario'])
+            return [V('same-as-single-threaded', ['alone-never-returns', case['scenario'].split('-')[0]],
+                      case, {'thread': i, 'got': w}, 'the call made alone in a thread returns or raises')]
     for i, (g, w) in enumerate(zip(got, want)):
         if g != w:
-            kind = 'missing-answer' if g == ('ret', 'None') and w[0] == 'ret' else \
+            kind = 'never-returns' if g == ('did-not-finish',) or g == ('exc', 'Deadlock') else 'missing-answer' if g == ('ret', 'None') and w[0] == 'ret' else \
                 'error' if g[0] == 'exc' else 'different-value' if w[0] == 'ret' else 'other'
             where = run.switches[0][3] if run.switches else 'no-switch'
             out.append(V('same-as-single-threaded', ['diverges', case['scenario'].split('-')[0], kind,
@@ -217,6 +243,8 @@ def shard(ctx, payload):
     _t0 = _t.time()
     try:
         _shard(ctx, payload)
+    except Poisoned:
+        ctx.label('shard-abandoned-after-a-thread-never-returned')
     finally:
         ctx.extra.setdefault('shard_seconds', {})['%s/%s' % (payload[0], 'warm' if payload[3] else 'cold')] = round(_t.time() - _t0, 1)
 
@@ -248,6 +276,10 @@ def _shard(ctx, payload):
         if got != want:
             ctx.violations(examine(case) or [])
             ctx.label('diverging-schedules')
+        if r.hung or HUNG:
+            if got == want:
+                ctx.violations(examine(case) or [])
+            raise Poisoned()
         inside = any(0 < s[1] < counts[s[0]] for s in schedule)
         if inside:
             ctx.nontrivial((name, warm, first, tuple(schedule)),
@@ -346,6 +378,8 @@ def run(ctx):
             sched.append((cur, k, tgt))
             cur = tgt
         case = {'scenario': name, 'thunks': names, 'fill': fill, 'warm': warm, 'schedule': [list(s) for s in sched], 'first': first}
+        if HUNG:
+            return           # a thread of an earlier example never returned (already reported): nothing more to learn here
         ctx.count()
         ctx.label('hypothesis-schedule')
         vs = examine(case)
